@@ -74,4 +74,3 @@ func genEvidence(c *ctx, a *genAgg, rule string, extra map[string]interface{}, m
 		vc.Fatalf("writing evidence: %v", err)
 	}
 }
-
